@@ -13,3 +13,5 @@ pub unsafe fn transmute_entry_to_static(key: &[u8], val: &[u8]) -> (r: (&'static
 { unimplemented!() }
 pub use crate::merge_function::MergeFunction;
 pub use crate::writer::Writer;
+pub use crate::merger::{Merger, MergerIter};
+pub use crate::writer::WriterBuilder;
